@@ -677,3 +677,51 @@ def driver_main(prog):
         L.append("\t}")
     L.append("}")
     return "\n".join(L) + "\n"
+
+
+# ---- planted defects (rejected programs) -----------------------------------------------------------
+
+def plant(rng, u, kind):
+    """mutate unit u so that Wire must reject it; returns a description or None if not applicable"""
+    build = u.sets[-1]
+    used_items = [n for s in u.sets for n in s["items"]]
+    if kind == "missing":
+        cands = [n for n in used_items if u.items[n]["kind"] in ("func", "value", "ivalue")]
+        if not cands:
+            return None
+        n = rng.choice(cands)
+        for s in u.sets:
+            if n in s["items"]:
+                s["items"].remove(n)
+        for t in u.items[n]["outs"]:
+            u.src.pop(t, None)
+        return "removed the source of %s" % (u.items[n]["outs"],)
+    if kind == "dup":
+        cands = [n for n in used_items if u.items[n]["kind"] == "value"]
+        if not cands:
+            return None
+        n = rng.choice(cands)
+        it = dict(u.items[n])
+        it["id"] = u.items[n]["id"] + 500
+        u.items.append(it)
+        build["items"].append(len(u.items) - 1)
+        return "second value for %s" % (it["outs"],)
+    if kind == "unused":
+        i = len(u.structs)
+        u.structs.append({"name": sname(u, i), "pkg": "app", "fields": [], "extra": [], "ptrrecv": False})
+        it = {"kind": "value", "outs": [("v", i)], "deps": [], "pkg": "app", "id": u.uid * 1000 + 900}
+        u.items.append(it)
+        build["items"].append(len(u.items) - 1)
+        u.src[("v", i)] = len(u.items) - 1
+        return "superfluous value of a type nothing needs"
+    if kind == "neederr":
+        if not any(it.get("err") for it in u.items if it["kind"] == "func"):
+            return None
+        u.inj["err"] = False
+        return "injector does not return error although a provider can fail"
+    if kind == "needcleanup":
+        if not any(it.get("cleanup") for it in u.items if it["kind"] == "func"):
+            return None
+        u.inj["cleanup"] = False
+        return "injector does not return a cleanup although a provider has one"
+    return None
